@@ -84,14 +84,21 @@ def okAll : List Name → List Name → List Name → Bool
 def covered (i : Input) (out : List Name) : List (Name × Name) :=
   (i.order.zip out).filter (fun p => inGs i.glyphSet p.1)
 
-/-- per-glyph part of the property for a renamed font: same number of glyphs in the same positions;
-    glyphs without source information keep their name; every other glyph gets its candidate, made
-    unique by a numeric suffix only when needed; all those names are legal -/
-def holdsRenamed (i : Input) (out : List Name) : Bool :=
+/-- the glyphs that keep their name: the post-processor has no source information for them -/
+def unrenamed (i : Input) : List Name := i.order.filter (fun n => !inGs i.glyphSet n)
+
+/-- per-glyph part of the property for a renamed font, relative to the names `taken` from the start:
+    same number of glyphs in the same positions; glyphs without source information keep their name;
+    every other glyph gets its candidate, made unique by a numeric suffix only when needed (a candidate
+    that is `taken` or was given out earlier needs one); all those names are legal -/
+def holdsRenamedFrom (taken : List Name) (i : Input) (out : List Name) : Bool :=
   out.length == i.order.length &&
   (i.order.zip out).all (fun p => inGs i.glyphSet p.1 || p.2 == p.1) &&
-  okAll [] ((covered i out).map (fun p => specCand i p.1)) ((covered i out).map (·.2)) &&
+  okAll taken ((covered i out).map (fun p => specCand i p.1)) ((covered i out).map (·.2)) &&
   (covered i out).all (fun p => legalName p.2)
+
+/-- the property: the names of the glyphs that are not renamed count as taken from the start -/
+def holdsRenamed (i : Input) (out : List Name) : Bool := holdsRenamedFrom (unrenamed i) i out
 
 /-- the names of the font are pairwise distinct -/
 def holdsDistinct (out : List Name) : Bool := decide out.Nodup
